@@ -30,6 +30,7 @@ class Session:
         self.sut = None
         self.shadow = None
         self.model = None
+        self.pristine = None
         self.violations = []
         self.stats = Counter()
         self.events = []  # (step, op kind, outcome digest)
@@ -257,6 +258,9 @@ class Session:
                 return
             self.sut = S.System(op["name"], build(op["comp"]), group=op["group"], rail=op["rail"])
             self.shadow = S.System(op["name"], build(op["comp"]), group=op["group"], rail=op["rail"])
+            # a third twin that receives the accepted edits and nothing else
+            # (no report is ever called on it before the final observation)
+            self.pristine = S.System(op["name"], build(op["comp"]), group=op["group"], rail=op["rail"])
             self.model = RefSystem(op["name"], op["comp"], op["group"], op["rail"])
             self.prev_snap = self.snapshot(self.sut)
             self.outcomes.append("ok")
@@ -313,6 +317,9 @@ class Session:
                 self.stats["accepted_though_model_rejects:" + reason] += 1
             # mirror on model and shadow
             r2 = self._guard(lambda: self._call_edit(self.shadow, op, self.w.S))
+            r3 = self._guard(lambda: self._call_edit(self.pristine, op, self.w.S))
+            if r3[0] != "ok":
+                self.pristine = None
             self._model_apply(op)
             if r2[0] != "ok":
                 self._twin_fail("shadow rejected an edit the SUT accepted: %r" % (r2,), op)
@@ -370,19 +377,19 @@ class Session:
     def _twin_fail(self, d, op, accepted=None):
         k = op["op"]
         if k in EDIT_OPS and accepted is False:
-            prop = "C15"
+            cands = ["C15"]
         elif k in ANALYSIS_OPS:
-            prop = "C17"
+            cands = ["C17"]
         elif k == "restart":
-            prop = "C12"
-        elif self.had_restart:
-            prop = "C12"
-        elif self.had_reject:
-            prop = "C15"
-        elif self.had_analysis:
-            prop = "C17"
+            cands = ["C12"]
         else:
-            prop = "C16"
+            cands = []
+            if self.had_restart:
+                cands.append("C12")
+            if self.had_reject:
+                cands.append("C15")
+            cands.append("C17")  # the per-step reports are analyses as well
+        prop = next((c for c in cands if c in self.enabled), cands[0])
         if prop in self.enabled:
             self.fail(prop, "sut-differs-from-shadow", "after %s %s: %s" % (k, _opsum(op), d))
         else:
